@@ -414,6 +414,10 @@ Proof. exists 9999. splits; try (unfold big; lia); vm_compute; reflexivity. Qed.
 (* ------------------------------------------------------------------ *)
 (* interface table, zones                                               *)
 
+Lemma Ret_inj : forall (A : Type) (a b : A), Ret a = Ret b -> a = b.
+Proof. intros A a b H. injection H as H. exact H. Qed.
+Arguments Ret_inj {A a b} _.
+
 Lemma by_name_in : forall tbl n i, by_name tbl n = Some i -> In (n, i) tbl.
 Proof.
   induction tbl as [|[n0 i0] t IH]; intros n i H; cbn in H; [discriminate|].
@@ -488,7 +492,7 @@ Theorem zone_roundtrip_index : forall tbl v z, 0 < v < big -> itod v = Ret z ->
   zone_to_int tbl z = v /\ zone_to_string tbl (wrapu32 (zone_to_int tbl z)) = Ret z.
 Proof.
   intros tbl v z Hv Hz Hn Hi.
-  destruct (itod_dtoi v Hv) as (s & Hs & Hd). rewrite Hz in Hs. inversion Hs; subst s.
+  destruct (itod_dtoi v Hv) as (s & Hs & Hd). rewrite Hz in Hs. apply Ret_inj in Hs. subst s.
   assert (Hne : z <> []).
   { intros ->. vm_compute in Hd. discriminate. }
   assert (Hzi : zone_to_int tbl z = v).
@@ -547,7 +551,8 @@ Theorem zone_index_ge_big_dropped : forall tbl v z, big <= v < 2 ^ 64 -> itod v 
   by_name tbl z = None -> zone_to_int tbl z = 0.
 Proof.
   intros tbl v z Hv Hz Hn.
-  rewrite itod_spec in Hz by (unfold big in Hv; lia). inversion Hz; subst z; clear Hz.
+  assert (Hv64 : 0 < v < 2 ^ 64) by (unfold big in Hv; lia).
+  rewrite (itod_spec v Hv64) in Hz. apply Ret_inj in Hz. subst z.
   pose proof pow10_32_big.
   assert (Hv33 : 0 < v < 10 ^ Z.of_nat 33).
   { unfold big in Hv. split; [lia|]. rewrite pow10_S. pose proof (pow10_pos 32). lia. }
@@ -588,4 +593,406 @@ Proof.
   assert (C : zone_to_string [] (wrapu32 (zone_to_int [] [49;54;55;55;55;50;49;53])) = Ret [49;54;55;55;55;50;49;53]).
   { apply H; try reflexivity. lia. }
   vm_compute in C. discriminate.
+Qed.
+
+(* ------------------------------------------------------------------ *)
+(* net.Addr -> unix.Sockaddr -> net.Addr                                *)
+
+Lemma na2sa_mk : forall tbl k ip port zone,
+  net_addr_to_sockaddr tbl (Some (mk_na k ip port zone)) = Ret (ip_to_sockaddr tbl ip port zone).
+Proof. intros; destruct k; reflexivity. Qed.
+
+Lemma back_sa4 : forall tbl k port addr,
+  back k tbl (Some (SA4 port addr)) = Ret (Some (mk_na k (Some addr) port [])).
+Proof. intros; destruct k; reflexivity. Qed.
+
+Lemma back_sa6 : forall tbl k port zone addr z,
+  zone_to_string tbl zone = Ret z ->
+  back k tbl (Some (SA6 port zone addr)) = Ret (Some (mk_na k (Some addr) port z)).
+Proof. intros tbl k port zone addr z H; destruct k; cbn; rewrite H; reflexivity. Qed.
+
+Lemma zlen_length : forall l (n : nat), zlen l = Z.of_nat n -> List.length l = n.
+Proof. intros l n H. unfold zlen in H. lia. Qed.
+
+(* IPv4, no zone: exact *)
+Theorem roundtrip_v4 : forall tbl k ip port, zlen ip = 4 ->
+  net_addr_to_sockaddr tbl (Some (mk_na k (Some ip) port [])) = Ret (Some (SA4 port ip)) /\
+  back k tbl (Some (SA4 port ip)) = Ret (Some (mk_na k (Some ip) port [])).
+Proof.
+  intros tbl k ip port H. split; [|apply back_sa4].
+  rewrite na2sa_mk. unfold ip_to_sockaddr. rewrite (to4_len4 ip H). cbn [is_empty].
+  rewrite copy_arr_exact by (apply zlen_length; exact H). reflexivity.
+Qed.
+
+(* IPv6 proper (not v4-mapped), any admissible zone: exact *)
+Theorem roundtrip_v6 : forall tbl k ip port zone, valid_tbl tbl -> zlen ip = 16 -> to4 ip = None ->
+  zone_ok tbl zone ->
+  net_addr_to_sockaddr tbl (Some (mk_na k (Some ip) port zone))
+    = Ret (Some (SA6 port (wrapu32 (zone_to_int tbl zone)) ip)) /\
+  back k tbl (Some (SA6 port (wrapu32 (zone_to_int tbl zone)) ip)) = Ret (Some (mk_na k (Some ip) port zone)).
+Proof.
+  intros tbl k ip port zone Hv H16 H4 Hz. split.
+  - rewrite na2sa_mk. unfold ip_to_sockaddr. rewrite H4, (to16_len16 ip H16).
+    rewrite copy_arr_exact by (apply zlen_length; exact H16). reflexivity.
+  - apply back_sa6. apply zone_ok_roundtrip; assumption.
+Qed.
+
+(* ::ffff:a.b.c.d without zone becomes the IPv4 sockaddr a.b.c.d and comes back as the
+   4-byte address: the same address in the sense of net.IP.Equal, not the same bytes *)
+Theorem roundtrip_v4in6 : forall tbl k ip4 port, zlen ip4 = 4 ->
+  net_addr_to_sockaddr tbl (Some (mk_na k (Some (v4_prefix ++ ip4)) port [])) = Ret (Some (SA4 port ip4)) /\
+  back k tbl (Some (SA4 port ip4)) = Ret (Some (mk_na k (Some ip4) port [])) /\
+  ip_equal ip4 (v4_prefix ++ ip4) = true.
+Proof.
+  intros tbl k ip4 port H. splits; [|apply back_sa4|apply ip_equal_4_mapped; assumption].
+  rewrite na2sa_mk. unfold ip_to_sockaddr. rewrite (to4_mapped ip4 H). cbn [is_empty].
+  rewrite copy_arr_exact by (apply zlen_length; exact H). reflexivity.
+Qed.
+
+(* an IPv4 address (either representation) WITH a zone travels as the v4-mapped IPv6
+   sockaddr and comes back in 16-byte form with the zone intact *)
+Theorem roundtrip_v4_zone : forall tbl k ip ip4 port zone, valid_tbl tbl -> to4 ip = Some ip4 ->
+  zone <> [] -> zone_ok tbl zone ->
+  net_addr_to_sockaddr tbl (Some (mk_na k (Some ip) port zone))
+    = Ret (Some (SA6 port (wrapu32 (zone_to_int tbl zone)) (v4_prefix ++ ip4))) /\
+  back k tbl (Some (SA6 port (wrapu32 (zone_to_int tbl zone)) (v4_prefix ++ ip4)))
+    = Ret (Some (mk_na k (Some (v4_prefix ++ ip4)) port zone)) /\
+  ip_equal (v4_prefix ++ ip4) ip = true.
+Proof.
+  intros tbl k ip ip4 port zone Hv H4 Hne Hz.
+  assert (Hl4 : zlen ip4 = 4 /\ to16 ip = Some (v4_prefix ++ ip4) /\ ip_equal (v4_prefix ++ ip4) ip = true).
+  { destruct (to4_some ip ip4 H4) as [[E ->]|(E & -> & E4)].
+    - splits; [assumption|apply to16_len4; assumption|apply ip_equal_mapped_4; assumption].
+    - splits; [assumption|apply to16_len16; assumption|apply ip_equal_refl]. }
+  destruct Hl4 as (Hl4 & H16 & Heq).
+  splits; [| |assumption].
+  - rewrite na2sa_mk. unfold ip_to_sockaddr. rewrite H4. apply is_empty_false in Hne. rewrite Hne, H16.
+    rewrite copy_arr_exact; [reflexivity|].
+    assert (Hn4 : List.length ip4 = 4%nat) by (apply zlen_length; exact Hl4).
+    rewrite app_length, Hn4. reflexivity.
+  - apply back_sa6. apply zone_ok_roundtrip; assumption.
+Qed.
+
+(* a nil IP (wildcard) *)
+Theorem roundtrip_nil_ip : forall tbl k port,
+  net_addr_to_sockaddr tbl (Some (mk_na k None port [])) = Ret (Some (SA4 port [0;0;0;0])) /\
+  back k tbl (Some (SA4 port [0;0;0;0])) = Ret (Some (mk_na k (Some [0;0;0;0]) port [])).
+Proof. intros; destruct k; split; reflexivity. Qed.
+
+(* *net.IPAddr carries no port: it converts like the TCP address with port 0 *)
+Theorem ipaddr_as_port0 : forall tbl ip zone,
+  net_addr_to_sockaddr tbl (Some (NIP ip zone)) = net_addr_to_sockaddr tbl (Some (NTCP ip 0 zone)).
+Proof. reflexivity. Qed.
+
+(* Unix-domain: the name survives for the three supported networks; the network
+   itself is reported as the socket type and comes back as "unix" *)
+Theorem roundtrip_unix : forall tbl name net,
+  net = net_unix \/ net = net_unixgram \/ net = net_unixpacket ->
+  net_addr_to_sockaddr tbl (Some (NUnix name net)) = Ret (Some (SAUnix name)) /\
+  sockaddr_to_tcp_or_unix tbl (Some (SAUnix name)) = Ret (Some (NUnix name net_unix)) /\
+  snd (unix_addr_to_sockaddr name net) =
+    (if bytes_eqb net net_unix then SOCK_STREAM else if bytes_eqb net net_unixgram then SOCK_DGRAM else SOCK_SEQPACKET).
+Proof.
+  intros tbl name net [ -> | [ -> | -> ] ]; splits; reflexivity.
+Qed.
+
+(* invalid IP length: nil, for every zone, port and entry point; never a panic *)
+Theorem invalid_ip_none : forall tbl ip port zone, zlen ip <> 4 -> zlen ip <> 16 ->
+  ip_to_sockaddr tbl (Some ip) port zone = None /\
+  net_addr_to_sockaddr tbl (Some (NTCP (Some ip) port zone)) = Ret None /\
+  net_addr_to_sockaddr tbl (Some (NUDP (Some ip) port zone)) = Ret None /\
+  net_addr_to_sockaddr tbl (Some (NIP (Some ip) zone)) = Ret None.
+Proof.
+  intros tbl ip port zone H4 H16.
+  assert (E : forall p, ip_to_sockaddr tbl (Some ip) p zone = None).
+  { intros p. unfold ip_to_sockaddr. rewrite (to4_invalid ip H4 H16), (to16_invalid ip H4 H16). reflexivity. }
+  splits; cbn [net_addr_to_sockaddr]; rewrite ?E; reflexivity.
+Qed.
+
+(* and conversely: a valid length always converts *)
+Theorem valid_ip_some : forall tbl ip port zone, zlen ip = 4 \/ zlen ip = 16 ->
+  exists sa, ip_to_sockaddr tbl (Some ip) port zone = Some sa.
+Proof.
+  intros tbl ip port zone [H|H]; unfold ip_to_sockaddr.
+  - rewrite (to4_len4 ip H), (to16_len4 ip H). destruct (is_empty zone); eexists; reflexivity.
+  - rewrite (to16_len16 ip H). destruct (to4 ip); [destruct (is_empty zone)|]; eexists; reflexivity.
+Qed.
+
+Theorem unsupported_net_none : forall tbl name net,
+  net <> net_unix -> net <> net_unixgram -> net <> net_unixpacket ->
+  unix_addr_to_sockaddr name net = (None, 0) /\
+  net_addr_to_sockaddr tbl (Some (NUnix name net)) = Ret None.
+Proof.
+  intros tbl name net H1 H2 H3.
+  assert (E : unix_addr_to_sockaddr name net = (None, 0)).
+  { unfold unix_addr_to_sockaddr.
+    apply bytes_eqb_neq in H1, H2, H3. rewrite H1, H2, H3. reflexivity. }
+  split; [assumption|]. cbn [net_addr_to_sockaddr]. rewrite E. reflexivity.
+Qed.
+
+Theorem foreign_types_none : forall tbl,
+  net_addr_to_sockaddr tbl (Some NOther) = Ret None /\
+  net_addr_to_sockaddr tbl None = Ret None /\
+  sockaddr_to_tcp_or_unix tbl (Some SAOther) = Ret None /\
+  sockaddr_to_tcp_or_unix tbl None = Ret None /\
+  sockaddr_to_udp tbl (Some SAOther) = Ret None /\
+  sockaddr_to_udp tbl None = Ret None /\
+  (forall name, sockaddr_to_udp tbl (Some (SAUnix name)) = Ret None).
+Proof. intros; splits; reflexivity. Qed.
+
+(* the only panic of NetAddrToSockaddr is the typed nil pointer *)
+Theorem na2sa_no_panic : forall tbl a, a <> Some NNilPtr -> exists r, net_addr_to_sockaddr tbl a = Ret r.
+Proof.
+  intros tbl [[ | | | | | ]|] H; try (eexists; reflexivity). contradiction.
+Qed.
+
+(* the converse conversions never panic on a well-formed sockaddr (ZoneId is a uint32) *)
+Theorem sa2na_no_panic : forall tbl k sa,
+  (forall p z a, sa = Some (SA6 p z a) -> 0 <= z < 4294967296) ->
+  exists r, back k tbl sa = Ret r.
+Proof.
+  intros tbl k sa Hz.
+  destruct sa as [[p a|p z a|n|]|]; try (destruct k; eexists; reflexivity).
+  specialize (Hz p z a eq_refl).
+  assert (exists s, zone_to_string tbl z = Ret s) as [s Hs].
+  { unfold zone_to_string. destruct (z =? 0); [eexists; reflexivity|].
+    destruct (interface_by_index tbl z); [eexists; reflexivity|]. apply itod_never_panics. lia. }
+  eexists. apply back_sa6. eassumption.
+Qed.
+
+(* ------------------------------------------------------------------ *)
+(* unix.Sockaddr -> net.Addr -> unix.Sockaddr  (c.SendTo(c.RemoteAddr()))  *)
+
+Theorem sa_roundtrip_v4 : forall tbl k port addr, zlen addr = 4 ->
+  exists na, back k tbl (Some (SA4 port addr)) = Ret (Some na) /\
+             net_addr_to_sockaddr tbl (Some na) = Ret (Some (SA4 port addr)).
+Proof.
+  intros tbl k port addr H. eexists. split; [apply back_sa4|]. apply roundtrip_v4. assumption.
+Qed.
+
+(* admissible zone ids: 0, an index of the table, or a free index below big whose numeral is no interface name *)
+Inductive zone_id_ok (tbl : list iface) : Z -> Prop :=
+| ZI0 : zone_id_ok tbl 0
+| ZIName : forall idx name, by_index tbl idx = Some name -> zone_id_ok tbl idx
+| ZIFree : forall v, 0 < v < big -> by_index tbl v = None -> (forall z, itod v = Ret z -> by_name tbl z = None) ->
+           zone_id_ok tbl v.
+
+Lemma zone_id_ok_roundtrip : forall tbl zid, valid_tbl tbl -> zone_id_ok tbl zid ->
+  exists z, zone_to_string tbl zid = Ret z /\ wrapu32 (zone_to_int tbl z) = zid /\ (zid <> 0 -> z <> []).
+Proof.
+  intros tbl zid Hv [|idx name Hi|v Hr Hi Hn].
+  - exists []. splits; [reflexivity|reflexivity|congruence].
+  - destruct (zone_id_roundtrip_name tbl idx name Hv Hi) as [H1 H2].
+    destruct (valid_tbl_entry tbl name idx Hv (by_index_in _ _ _ Hi)) as [Hne Hr].
+    exists name. splits; [assumption|rewrite H2; apply wrapu32_small; lia|intros _; assumption].
+  - destruct (zone_id_roundtrip_free tbl v Hr Hi Hn) as (z & H1 & H2).
+    exists z. splits; [assumption|rewrite H2; apply wrapu32_small; unfold big in Hr; lia|].
+    intros _ ->. cbn in H2. lia.
+Qed.
+
+Theorem sa_roundtrip_v6 : forall tbl k port zid addr, valid_tbl tbl -> zlen addr = 16 ->
+  zone_id_ok tbl zid -> (to4 addr = None \/ zid <> 0) ->
+  exists na, back k tbl (Some (SA6 port zid addr)) = Ret (Some na) /\
+             net_addr_to_sockaddr tbl (Some na) = Ret (Some (SA6 port zid addr)).
+Proof.
+  intros tbl k port zid addr Hv H16 Hz Hor.
+  destruct (zone_id_ok_roundtrip tbl zid Hv Hz) as (z & Hs & Hi & Hne).
+  exists (mk_na k (Some addr) port z). split; [apply back_sa6; assumption|].
+  rewrite na2sa_mk. unfold ip_to_sockaddr.
+  rewrite (to16_len16 addr H16), copy_arr_exact by (apply zlen_length; exact H16).
+  destruct Hor as [H4|Hnz].
+  - rewrite H4, Hi. reflexivity.
+  - specialize (Hne Hnz). apply is_empty_false in Hne. rewrite Hne, Hi.
+    destruct (to4 addr); reflexivity.
+Qed.
+
+(* the one lossy case in this direction: a v4-mapped IPv6 sockaddr without zone
+   comes back as the IPv4 sockaddr of the embedded address *)
+Theorem sa_roundtrip_v4mapped : forall tbl k port ip4, zlen ip4 = 4 ->
+  exists na, back k tbl (Some (SA6 port 0 (v4_prefix ++ ip4))) = Ret (Some na) /\
+             net_addr_to_sockaddr tbl (Some na) = Ret (Some (SA4 port ip4)).
+Proof.
+  intros tbl k port ip4 H. exists (mk_na k (Some (v4_prefix ++ ip4)) port []).
+  split; [apply back_sa6; reflexivity|]. apply roundtrip_v4in6. assumption.
+Qed.
+
+Theorem sa_roundtrip_unix : forall tbl name,
+  exists na, sockaddr_to_tcp_or_unix tbl (Some (SAUnix name)) = Ret (Some na) /\
+             net_addr_to_sockaddr tbl (Some na) = Ret (Some (SAUnix name)).
+Proof. intros. eexists. split; reflexivity. Qed.
+
+(* ------------------------------------------------------------------ *)
+(* listen side: the sockaddr that is bound denotes the reported address  *)
+
+Theorem listen_v4 : forall tbl proto ip ip4 port zone, to4 ip = Some ip4 ->
+  listen_sockaddr tbl proto ip port zone = Some (AF_INET, SA4 port ip4, false).
+Proof.
+  intros tbl proto ip ip4 port zone H4.
+  destruct (to4_some ip ip4 H4) as [[E ->]|(E & -> & E4)].
+  - unfold listen_sockaddr. rewrite H4. cbn [Z.eqb Pos.eqb]. unfold ip_to_sockaddr_inet4.
+    rewrite E. cbn [Z.eqb]. rewrite H4. rewrite copy_arr_exact by (apply zlen_length; exact E). reflexivity.
+  - unfold listen_sockaddr. rewrite H4. cbn [Z.eqb Pos.eqb]. unfold ip_to_sockaddr_inet4.
+    rewrite E. cbn [Z.eqb]. rewrite H4. rewrite copy_arr_exact by (apply zlen_length; exact E4). reflexivity.
+Qed.
+
+Theorem listen_v6 : forall tbl proto ip port zone, zlen ip = 16 -> to4 ip = None ->
+  listen_sockaddr tbl proto ip port zone =
+    Some (AF_INET6,
+          SA6 port (match interface_by_name tbl zone with Some idx => wrapu32 idx | None => 0 end) ip,
+          true).
+Proof.
+  intros tbl proto ip port zone H16 H4.
+  unfold listen_sockaddr. rewrite H4, (to16_len16 ip H16). cbn [Z.eqb Pos.eqb].
+  unfold ip_to_sockaddr_inet6. rewrite H16. cbn [Z.eqb orb].
+  assert (Hne : ip_equal ip ipv4zero = false).
+  { unfold ip_equal. change (zlen ipv4zero) with 16. rewrite H16. cbn [Z.eqb Pos.eqb].
+    apply bytes_eqb_neq. intros ->. vm_compute in H4. discriminate. }
+  rewrite Hne, (to16_len16 ip H16), copy_arr_exact by (apply zlen_length; exact H16).
+  destruct (interface_by_name tbl zone); reflexivity.
+Qed.
+
+(* ------------------------------------------------------------------ *)
+(* what the lifetime clause needs from the conversion                  *)
+
+(* Only a non-zero zone id consults the interface table: for every other
+   sockaddr the reported address does not depend on the (mutable) OS table. *)
+Theorem conversion_table_independent : forall tbl1 tbl2 k sa,
+  (forall p z a, sa = Some (SA6 p z a) -> z = 0) ->
+  back k tbl1 sa = back k tbl2 sa.
+Proof.
+  intros tbl1 tbl2 k sa H.
+  destruct sa as [[p a|p z a|n|]|]; try (destruct k; reflexivity).
+  rewrite (H p z a eq_refl). destruct k; reflexivity.
+Qed.
+
+(* A store of per-connection addresses written at open (conversion of the
+   accepted sockaddr + the listener address) and erased at release: operations
+   on OTHER connections never change what a connection reports. *)
+Inductive conn_op :=
+| COpen (id : Z) (listener : option netaddr) (sa : option sockaddr)
+| CClose (id : Z).
+
+Definition op_id (o : conn_op) : Z := match o with COpen id _ _ => id | CClose id => id end.
+
+Definition addr_store := list (Z * (option netaddr * outcome (option netaddr))).
+
+Fixpoint store_remove (id : Z) (st : addr_store) : addr_store :=
+  match st with
+  | [] => []
+  | (i, v) :: t => if i =? id then store_remove id t else (i, v) :: store_remove id t
+  end.
+
+Fixpoint store_lookup (id : Z) (st : addr_store) : option (option netaddr * outcome (option netaddr)) :=
+  match st with
+  | [] => None
+  | (i, v) :: t => if i =? id then Some v else store_lookup id t
+  end.
+
+Definition store_step (tbl : list iface) (st : addr_store) (o : conn_op) : addr_store :=
+  match o with
+  | COpen id l sa => (id, (l, sockaddr_to_tcp_or_unix tbl sa)) :: store_remove id st
+  | CClose id => store_remove id st
+  end.
+
+Lemma store_lookup_remove_other : forall id id' st, id' <> id ->
+  store_lookup id (store_remove id' st) = store_lookup id st.
+Proof.
+  induction st as [|[i v] t IH]; intros Hne; cbn; [reflexivity|].
+  destruct (Z.eqb_spec i id') as [E|N].
+  - subst i. rewrite IH by assumption. destruct (Z.eqb_spec id' id); [contradiction|reflexivity].
+  - cbn. destruct (Z.eqb_spec i id); [reflexivity|]. apply IH; assumption.
+Qed.
+
+Theorem store_open_reports : forall tbl st id l sa,
+  store_lookup id (store_step tbl st (COpen id l sa)) = Some (l, sockaddr_to_tcp_or_unix tbl sa).
+Proof. intros. cbn. rewrite Z.eqb_refl. reflexivity. Qed.
+
+Theorem store_churn_stable : forall tbl ops st id,
+  Forall (fun o => op_id o <> id) ops ->
+  store_lookup id (fold_left (store_step tbl) ops st) = store_lookup id st.
+Proof.
+  intros tbl ops. induction ops as [|o ops IH]; intros st id Hf; [reflexivity|].
+  inversion Hf as [|? ? Ho Hrest]; subst. cbn [fold_left]. rewrite IH by assumption.
+  destruct o as [id' l sa|id']; cbn [op_id] in Ho; cbn [store_step store_lookup].
+  - destruct (Z.eqb_spec id' id); [contradiction|]. apply store_lookup_remove_other; assumption.
+  - apply store_lookup_remove_other; assumption.
+Qed.
+
+(* ------------------------------------------------------------------ *)
+(* explicit instances used by Properties/C17.v                          *)
+
+Theorem roundtrip_v6_nozone : forall tbl k ip port, zlen ip = 16 -> to4 ip = None ->
+  net_addr_to_sockaddr tbl (Some (mk_na k (Some ip) port [])) = Ret (Some (SA6 port 0 ip)) /\
+  back k tbl (Some (SA6 port 0 ip)) = Ret (Some (mk_na k (Some ip) port [])).
+Proof.
+  intros tbl k ip port H16 H4. split.
+  - rewrite na2sa_mk. unfold ip_to_sockaddr. rewrite H4, (to16_len16 ip H16).
+    rewrite copy_arr_exact by (apply zlen_length; exact H16). reflexivity.
+  - apply back_sa6. reflexivity.
+Qed.
+
+Theorem roundtrip_v6_zone_name : forall tbl k ip port zone idx, valid_tbl tbl ->
+  zlen ip = 16 -> to4 ip = None -> by_name tbl zone = Some idx ->
+  net_addr_to_sockaddr tbl (Some (mk_na k (Some ip) port zone)) = Ret (Some (SA6 port idx ip)) /\
+  back k tbl (Some (SA6 port idx ip)) = Ret (Some (mk_na k (Some ip) port zone)).
+Proof.
+  intros tbl k ip port zone idx Hv H16 H4 Hn.
+  destruct (roundtrip_v6 tbl k ip port zone Hv H16 H4 (ZName tbl zone idx Hn)) as [A B].
+  destruct (zone_roundtrip_name tbl zone idx Hv Hn) as [Hi _].
+  destruct (valid_tbl_entry tbl zone idx Hv (by_name_in _ _ _ Hn)) as [_ Hr].
+  rewrite Hi, wrapu32_small in A, B by lia. split; assumption.
+Qed.
+
+Theorem roundtrip_v6_zone_index : forall tbl k ip port v zone, valid_tbl tbl ->
+  zlen ip = 16 -> to4 ip = None ->
+  0 < v < big -> itod v = Ret zone -> by_name tbl zone = None -> by_index tbl v = None ->
+  net_addr_to_sockaddr tbl (Some (mk_na k (Some ip) port zone)) = Ret (Some (SA6 port v ip)) /\
+  back k tbl (Some (SA6 port v ip)) = Ret (Some (mk_na k (Some ip) port zone)).
+Proof.
+  intros tbl k ip port v zone Hv H16 H4 Hr Hz Hn Hi.
+  destruct (roundtrip_v6 tbl k ip port zone Hv H16 H4 (ZIndex tbl v zone Hr Hz Hn Hi)) as [A B].
+  destruct (zone_roundtrip_index tbl v zone Hr Hz Hn Hi) as [Hzi _].
+  unfold big in Hr. rewrite Hzi, wrapu32_small in A, B by lia. split; assumption.
+Qed.
+
+Theorem roundtrip_v4_zone_name : forall tbl k ip ip4 port zone idx, valid_tbl tbl ->
+  to4 ip = Some ip4 -> by_name tbl zone = Some idx ->
+  net_addr_to_sockaddr tbl (Some (mk_na k (Some ip) port zone)) = Ret (Some (SA6 port idx (v4_prefix ++ ip4))) /\
+  back k tbl (Some (SA6 port idx (v4_prefix ++ ip4))) = Ret (Some (mk_na k (Some (v4_prefix ++ ip4)) port zone)) /\
+  ip_equal (v4_prefix ++ ip4) ip = true.
+Proof.
+  intros tbl k ip ip4 port zone idx Hv H4 Hn.
+  destruct (valid_tbl_entry tbl zone idx Hv (by_name_in _ _ _ Hn)) as [Hne Hr].
+  destruct (roundtrip_v4_zone tbl k ip ip4 port zone Hv H4 Hne (ZName tbl zone idx Hn)) as (A & B & C).
+  destruct (zone_roundtrip_name tbl zone idx Hv Hn) as [Hi _].
+  rewrite Hi, wrapu32_small in A, B by lia. splits; assumption.
+Qed.
+
+(* ports: the conversion never touches the port, whatever its value *)
+Theorem port_preserved : forall tbl ip port zone sa,
+  ip_to_sockaddr tbl ip port zone = Some sa ->
+  match sa with SA4 p _ => p = port | SA6 p _ _ => p = port | _ => False end.
+Proof.
+  intros tbl ip port zone sa H. unfold ip_to_sockaddr in H.
+  destruct ip as [ip|].
+  - destruct (match to4 ip with Some ip4 => if is_empty zone then Some ip4 else None | None => None end).
+    + inversion H; reflexivity.
+    + destruct (to16 ip); inversion H; reflexivity.
+  - destruct (negb (is_empty zone)); inversion H; reflexivity.
+Qed.
+
+Theorem port_preserved_back : forall tbl k sa na,
+  back k tbl (Some sa) = Ret (Some na) ->
+  match sa, na with
+  | SA4 p _, NTCP _ q _ | SA4 p _, NUDP _ q _ | SA6 p _ _, NTCP _ q _ | SA6 p _ _, NUDP _ q _ => p = q
+  | SAUnix n, NUnix m _ => n = m
+  | _, _ => False
+  end.
+Proof.
+  intros tbl k sa na H.
+  destruct sa as [p a|p z a|n|]; destruct k; cbn in H.
+  all: try (apply Ret_inj in H; inversion H; subst; reflexivity).
+  all: try (destruct (zone_to_string tbl z); cbn in H; [apply Ret_inj in H; inversion H; subst; reflexivity|discriminate]).
+  all: try discriminate.
+  all: apply Ret_inj in H; discriminate.
 Qed.
